@@ -17,7 +17,7 @@ COMPONENTS = ['pipe']
 DRIVERS = {'pipe': (['run_c13', 'run_oracle'], ['pipe/Run.vo'])}
 
 TB = ['Coq 8.16.1 kernel + vm_compute (facts read off the extracted data, examples, refutation witness); no native_compute',
-      'translator/pipe.py (wake arms, register_raw probe/arms/order, set_flags, Drop, register conversion, wake_readers; cfg and constants resolved with values measured from /repo\'s libc)',
+      'translator/pipe.py (wake arms, register_raw probe kind (getsockopt SO_TYPE | zero-length send)/arms/order, set_flags, Drop, register conversion, wake_readers; cfg and constants resolved with values measured from /repo\'s libc)',
       'pipe/Model.v sys_result = OS ORACLE (write/send per descriptor kind, blocking iff write-or-send-without-MSG_DONTWAIT and O_NONBLOCK clear and queue not accepting), validated row by row against the running kernel on every run (p_c13 oracle)',
       'buffer accounting of the kernel = arbitrary function `accept` with the single hypothesis accept_empty (capacity >= 1); the correspondence instantiates it with capacities measured per channel',
       'the registry is abstract in this model (its answer ok/err/panic is part of the history; that a removed action is dropped exactly once after the grace period is C01); Arc ownership of the iterator write end is Rust std semantics, not modelled',
@@ -51,7 +51,9 @@ def fixed_histories():
     H.append(([(0, 1, 2, 0, 4096)], [(1, 0, 10, 0), (5, 10, 300), (3, 0, 0), (5, 10, 3), (4, 0), (5, 10, 2), (4, 0), (6,)]))
     # stream and dgram sockets (blocking, full), generic register
     H.append(([(1, 1, 2, 0, 0), (2, 1, 2, 0, 0)], [(1, 1, 10, 0), (1, 1, 10, 1), (5, 10, 50), (3, 0, 0), (3, 1, 0), (5, 10, 4), (4, 1), (5, 10, 2), (4, 0), (6,)]))
-    # the datagram corner: tiny socket buffer, as many registrations (empty probe datagrams) as fit
+    # regression input of the repaired defect (fix 96b2274): tiny socket buffer and more registrations than
+    # messages fit; when register_raw probed with a zero-length send, the empty probe datagrams filled the queue
+    # and the reader saw no byte
     H.append(([(2, 1, 0, 0, 1)], [(1, 0, 10, 0), (1, 1, 12, 0), (1, 0, 34, 0), (1, 0, 35, 0), (1, 0, 36, 0), (1, 0, 37, 0), (1, 0, 38, 0),
                                  (5, 10, 3), (3, 0, 0), (5, 10, 2), (6,)]))
     # rejected registrations of every sort, then the reuse probe
@@ -61,6 +63,13 @@ def fixed_histories():
     # other kinds: /dev/null, eventfd (write of one byte is EINVAL), regular file
     H.append(([(3, 1, 0, 0, 0), (4, 1, 0, 0, 0), (5, 1, 0, 0, 0)], [(1, 0, 10, 0), (1, 1, 10, 1), (1, 0, 12, 2), (5, 10, 20), (5, 12, 7), (4, 2), (5, 12, 3), (6,)]))
     return H
+
+
+def many_registrations_history():
+    """the same with the default socket buffer: more registrations (on dups of one datagram socket) than the
+    278 messages it takes, then deliveries of a signal with a single registration"""
+    ops = [(1, 0, 10, 0)] + [(1, k % 2, (12, 34, 35, 36)[k % 4], 0) for k in range(290)] + [(5, 10, 3), (3, 0, 0), (5, 10, 2), (6,)]
+    return ([(2, 1, 0, 0, 0)], ops)
 
 
 def gen_history(rnd, thorough):
@@ -264,7 +273,7 @@ def check_read(viol, chans, ch, att, xread, bread, u, b, x, emptied):
             elif kind == 2:
                 viol({'kind': 'dgram', 'corner': 'queue-holds-only-empty-probe-datagrams'},
                      'datagram socket: %d deliveries since the last complete drain, the reader drained the socket and saw 0 bytes '
-                     '(only the empty datagrams that register_raw sends as its probe; the wake byte was refused with EAGAIN)' % att[ch])
+                     '(only empty datagrams, which nobody but register_raw put there; the wake byte was refused with EAGAIN)' % att[ch])
             else:
                 viol({'monitor': 'no-byte-after-delivery', 'kind': kind}, '%d deliveries since the last complete drain but the reader saw no byte' % att[ch])
         att[ch] = xread[ch] = bread[ch] = 0
@@ -274,7 +283,7 @@ def check_read(viol, chans, ch, att, xread, bread, u, b, x, emptied):
 def oracle_correspondence(ctx):
     rc, out, _ = sh([common.bin_path('p_c13'), 'oracle'], timeout=120)
     rows = [l.split()[1:] for l in out.split('\n') if l.startswith('O ')]
-    if rc != 0 or len(rows) < 50:
+    if rc != 0 or len(rows) < 60 or not any(r[3] == '2' for r in rows):
         ctx.correspondence('kernel oracle probes ran', False, out[-800:])
         return
     req = []
@@ -283,11 +292,18 @@ def oracle_correspondence(ctx):
         req.append('run_oracle %d %d %d %d %d %d %d' % (model_kind(kind), nb, full, oe, sys_, ln, fl))
     res = common.run_driver('pipe', req)
     bad = []
+    consts = common.measured_consts()
     for r, m in zip(rows, res):
         ctx.evaluations += 1
+        if int(r[3]) == 2:
+            # getsockopt(SO_TYPE): sockets 0, everything else ENOTSOCK, an invalid descriptor EBADF
+            kind = int(r[0])
+            want = 0 if kind in (1, 2) else (consts['EBADF'] if kind == 6 else consts['ENOTSOCK'])
+            if int(r[8]) != want:
+                bad.append({'getsockopt row': ' '.join(r), 'expected errno': want})
         if int(r[7]) != int(m.split()[0]):
             bad.append({'row(kind full other_err sys len flags nonblock code errno)': ' '.join(r), 'model': m})
-    ctx.correspondence('Model.sys_result (OS oracle: write/send result per kind x fill x O_NONBLOCK x MSG_DONTWAIT, incl. BLOCKS) = running kernel', not bad, bad[:8])
+    ctx.correspondence('Model.sys_result (OS oracle: write/send result per kind x fill x O_NONBLOCK x MSG_DONTWAIT incl. BLOCKS, getsockopt(SO_TYPE) per kind) = running kernel', not bad, bad[:8])
     ctx.samples.append({'oracle_rows': len(rows), 'example': ' '.join(rows[10])})
 
 
@@ -378,6 +394,7 @@ def histories(ctx):
     rnd = random.Random(ctx.seed * 7919 + 13)
     thorough = ctx.tier == 'thorough'
     hs = fixed_histories()
+    hs.append(many_registrations_history())
     # every queue kind x {empty, full} x {blocking, non-blocking} with a burst longer than the capacity
     for kind in (0, 1, 2):
         for mode in (0, 2) + ((4,) if kind == 2 else ()):
@@ -394,6 +411,7 @@ def run(ctx, only=None):
     ctx.trusted_base = TB
     ctx.assumptions = ['an empty pipe / socket accepts one unit (capacity >= 1): hypothesis accept_empty of the theorems',
                        'the kernel honours O_NONBLOCK and MSG_DONTWAIT as in Model.sys_result (probed on every run, not proved)',
+                       'world_in_bytes: datagrams that somebody else queued before the descriptor was handed over carry at least one byte (a queue the environment filled with empty datagrams takes no byte from anybody)',
                        'nobody else clears O_NONBLOCK on the open file description or writes wake-like bytes into it',
                        'each registration is handed a descriptor of its own (dup/try_clone for several signals), as the API documents',
                        'panic = unwind (a forbidden signal drops the closure during unwinding)']
@@ -407,13 +425,14 @@ def run(ctx, only=None):
         oracle_correspondence(ctx)
     hs = only or histories(ctx)
     run_histories(ctx, hs, have_model)
-    ctx.coverage['rule'] = ('histories = 5 fixed corner histories + every queue kind x {empty, full[, full of empty datagrams]} x {blocking, O_NONBLOCK} with a burst '
+    ctx.coverage['rule'] = ('histories = 5 fixed corner histories + 1 history with 291 registrations on one datagram socket + every queue kind x {empty, full[, full of empty datagrams]} x {blocking, O_NONBLOCK} with a burst '
                             'longer than the capacity + %d random histories from VERIF_SEED (1-3 channels of 7 descriptor kinds, register/register_raw incl. forbidden, invalid '
                             'signals and invalid descriptors, bursts up to %d deliveries, partial and complete drains, stale unregisters, descriptor-number reuse probe); '
                             'each runs on the real crate in a forked child and on the extracted model with the measured capacities; distinct_nontrivial = distinct '
                             '(channel configuration) and (kind, outcome, method, probe result) combinations seen' % ((150, 5000) if ctx.tier == 'quick' else (700, 20000)))
     ctx.coverage['exhaustive'] = False
-    ctx.coverage['refuted'] = 'C13_one_nonblocking_byte_refuted: the text "sees at least one byte" fails for a datagram socket whose queue is full of the empty probe datagrams (model witness dgram_corner_witness; reproduced on the implementation by fixed history 2)'
+    ctx.coverage['regression'] = ('fixed history 2 and the 291-registration history are the inputs of the defect repaired by 96b2274 (register_raw probing with a '
+                                  'zero-length send filled a datagram socket with empty datagrams); Theorems.empty_send_probe_witness keeps the model-side witness for the old probe shape')
     ctx.distinct = set(json.dumps(d) for d in ctx.distinct)
 
 
